@@ -5,7 +5,15 @@ R16.1 extracts the decision table of the forwarder callback nested in
 `Session.crosswire_pubsub` by predicate abstraction (flow.Exploration over its
 CFG; atoms `from_proxy`, `'origin' in msg`, `msg['origin'] == self._module`,
 `msg.get('fwd')`; assignments are kills; any other test is unconstrained) and
-compares it with the specification table.
+compares it with the specification table.  Calls of sibling closures of the
+wiring method (one predicate per wire direction, chosen once per wire) are
+inlined first (`specialise`).
+
+R16.6 is the agreement between the typed message classes of messages.py and
+the callback: a key that a message class defaults is present in every message
+of that class, so a callback that recognises "untagged" by the absence of
+`origin` never tags such a message; decided by evaluating the callback on the
+defaults of every class and on the corresponding dict message.
 """
 
 import ast
@@ -643,6 +651,33 @@ def describe(P, O, M, F):
                                'set' if F else 'not set')
 
 
+def judge(eff, P, publish):
+    """what is wrong with the effects of one path of the callback for a
+    message that must (not) be published by a forwarder with from_proxy=P;
+    None if nothing"""
+    puts = [e for e in eff if e[0] == 'put']
+    errs = [e for e in eff if e[0] in ('error', 'raise')]
+    if errs:
+        return 'the callback raises (%s)' % errs[0][-1] \
+            if errs[0][0] == 'error' else 'the callback raises'
+    if publish and not puts:
+        return 'the message is dropped but must be forwarded'
+    if not publish and puts:
+        return 'the message is forwarded but must be dropped'
+    if len(puts) > 1:
+        return 'the message is published %d times' % len(puts)
+    if puts:
+        _, o, m, f, topic_ok, msg_ok = puts[0]
+        if not topic_ok or not msg_ok:
+            return 'it is not the received message on the target ' \
+                   'topic that is published'
+        if o is not True:
+            return 'the message is forwarded without an origin tag'
+        if P and m is not False or not P and m is not True:
+            return 'the message is forwarded with the wrong origin tag'
+    return None
+
+
 def r16_1(prog, rep, rid='R16.1'):
     rep.rule(rid, 'decision table of the crosswire forwarder = specification: '
              'untagged messages are tagged with this side; from the proxy: '
@@ -676,33 +711,9 @@ def r16_1(prog, rep, rid='R16.1'):
                                                None: '-'}[M], F)
         outs_l = sorted(outs, key=repr)
 
-        def judge(eff):
-            puts = [e for e in eff if e[0] == 'put']
-            errs = [e for e in eff if e[0] in ('error', 'raise')]
-            if errs:
-                return 'the callback raises (%s)' % errs[0][-1] \
-                    if errs[0][0] == 'error' else 'the callback raises'
-            if publish and not puts:
-                return 'the message is dropped but must be forwarded'
-            if not publish and puts:
-                return 'the message is forwarded but must be dropped'
-            if len(puts) > 1:
-                return 'the message is published %d times' % len(puts)
-            if puts:
-                _, o, m, f, topic_ok, msg_ok = puts[0]
-                if not topic_ok or not msg_ok:
-                    return 'it is not the received message on the target ' \
-                           'topic that is published'
-                if o is not True:
-                    return 'the message is forwarded without an origin tag'
-                if P and m is not False or not P and m is not True:
-                    return 'the message is forwarded with the wrong origin ' \
-                           'tag'
-            return None
-
         problem, when = None, ''
         for sw, eff in outs_l:
-            pr = judge(eff)
+            pr = judge(eff, P, publish)
             if pr is not None and problem is None:
                 problem = pr
                 if sw:
@@ -933,7 +944,8 @@ def r16_3(prog, rep, rid='R16.3', tier='quick'):
     rep.rule(rid, 'state updates carry the fwd flag of advance(): default true '
              'for AgentComponent, false for ClientComponent, passed through '
              'unchanged; cancel_tasks / cancel_pilots requests are published '
-             'with fwd=True', minimum=7)
+             'with fwd=True; typed messages default to fwd false, RPC '
+             'requests / replies are constructed with fwd true', minimum=11)
     base = prog.cls(COMP, 'BaseComponent')
     badv = prog.find_method(base, 'advance')
     if badv is None or 'fwd' not in badv.params:
@@ -1049,6 +1061,81 @@ def r16_3(prog, rep, rid='R16.3', tier='quick'):
                       if mname == 'cancel_tasks' else
                       'the agent never receives the request and the call '
                       'blocks in wait_pilots'))
+    # typed messages: the forwarder reads the flag by value, so the class
+    # that introduces the `fwd` item must default it to "not forwarded" (a
+    # message that does not say otherwise stays local, like a dict without the
+    # key); RPC requests / replies are constructed without naming the flag
+    # and must cross the proxy to reach the side of their addressee
+    classes = message_classes(prog)
+    for k in classes:
+        sv = k.consts.get('_schema')
+        declared = isinstance(sv, ast.Dict) and any(
+            isinstance(x, ast.Constant) and x.value == 'fwd' for x in sv.keys)
+        declared = declared or (
+            isinstance(sv, ast.Call) and dotted(sv.func) == 'dict' and
+            any(kw.arg == 'fwd' for kw in sv.keywords))
+        if not declared:
+            continue
+        d = class_defaults(prog, k)
+        val, owner, node = d.get('fwd', (None, k, None))
+        rep.check(not val, rid, k, "%s (declares the 'fwd' item of the typed "
+                  "messages) defaults it to a false value" % k.name,
+                  construct='%s:fwd default' % k.name,
+                  message="messages.py: %s declares the schema item 'fwd' "
+                  "and defaults it to %r: every typed message whose class "
+                  "does not set its own default carries the forward flag "
+                  "although its publisher did not ask for it, and leaves the "
+                  "side where it was published" % (k.name, val),
+                  loc='src/radical/pilot/%s:%d' % (
+                      k.module.rel, getattr(node, 'lineno', k.node.lineno)),
+                  history='a component publishes a typed message without '
+                  'naming fwd: the local->proxy forwarder puts it on the '
+                  'proxy, every other side receives it')
+    for cname in ('RPCRequestMessage', 'RPCResultMessage'):
+        k = prog.cls(MSGS, cname)
+        dflt = class_defaults(prog, k).get('fwd', (None, k, None))[0]
+        sites = 0
+        for m in prog.modules.values():
+            if cname not in m.src:          # (not even imported under an alias)
+                continue
+            for c in calls_in(m.tree, nested=True):
+                r = prog.resolve(m, c.func) if isinstance(
+                    c.func, (ast.Name, ast.Attribute)) else None
+                if not r or r[0] != 'class' or r[1] is not k:
+                    continue
+                sites += 1
+                e = kwarg(c, 'fwd')
+                if any(kw.arg is None for kw in c.keywords) or \
+                        kwarg(c, 'from_dict', 1 if cname ==
+                              'RPCResultMessage' else 0) is not None:
+                    raise AnalysisError(
+                        'UNRECOGNISED-IDIOM %s: items of %s are not named at '
+                        'the construction site: %s' % (m.rel, cname, short(c)))
+                val = dflt if e is None else prog.fold(m, e)
+                if val is UNKNOWN:
+                    raise AnalysisError(
+                        'UNRECOGNISED-IDIOM %s: fwd item of %s is not a '
+                        'constant' % (m.rel, short(c)))
+                rep.check(val is True, rid, m.rel, '%s constructed with '
+                          'fwd=True (%s)' % (cname, 'class default' if e is
+                                             None else 'named'),
+                          construct='%s(fwd)' % cname,
+                          message='%s: %s is constructed with fwd=%r (%s): '
+                          'the RPC %s stays on the side where it is '
+                          'published and never reaches the component it is '
+                          'addressed to on another side' % (
+                              m.rel, cname, val, 'default of the message '
+                              'class' if e is None else 'named in the call',
+                              'request' if 'Request' in cname else 'reply'),
+                          loc='src/radical/pilot/%s:%d' % (m.rel, c.lineno),
+                          history='client calls pilot.rpc(...) / a client '
+                          'component calls rpc(cmd, rpc_addr=<pilot '
+                          'component>): the %s is not forwarded, rpc() waits '
+                          'forever' % ('request' if 'Request' in cname
+                                       else 'reply'))
+        if not sites:
+            raise AnalysisError('anchor: no construction site of %s found'
+                                % cname)
     if tier == 'thorough':
         n = 0
         for m in prog.modules.values():
@@ -1071,6 +1158,202 @@ def r16_3(prog, rep, rid='R16.3', tier='quick'):
             if isinstance(v, dict):
                 rep.info(rid, k, 'message class %s: default fwd=%r'
                          % (k.name, v.get('fwd', '<inherited>')))
+
+
+# ------------------------------------------------------------------------------
+# R16.6: typed messages and the forwarder agree on what "untagged" means
+#
+MSGS = 'messages.py'
+TAG_KEYS = ('origin', 'fwd')
+
+
+def message_classes(prog):
+    """the typed message classes: classes of the package that are, or derive
+    from, a class of messages.py with a `_schema` / `_defaults` table"""
+    def root(c):
+        return c.module.rel == MSGS and ('_defaults' in c.consts or
+                                         '_schema' in c.consts)
+    out = [k for k in prog.all_classes() if any(root(c) for c in prog.mro(k))]
+    if not out:
+        raise AnalysisError('anchor: no typed message class in %s' % MSGS)
+    return sorted(out, key=lambda k: (k.module.rel, k.node.lineno))
+
+
+def class_defaults(prog, k):
+    """{key: (value, declaring class, ast node)} for the protocol keys among
+    the items every instance of message class `k` is constructed with:
+    ru.TypedDict merges the `_defaults` tables along the bases (the entry of
+    the most derived class wins) and copies the result into each new
+    instance, so a defaulted key is present in every message of the class"""
+    out = {}
+    for c in reversed(prog.mro(k)):
+        dv = c.consts.get('_defaults')
+        if dv is None:
+            continue
+        items = []
+        if isinstance(dv, ast.Dict):
+            for kk, vv in zip(dv.keys, dv.values):
+                if kk is None:
+                    inner = prog.fold(c.module, vv, c)
+                    if not isinstance(inner, dict):
+                        raise AnalysisError(
+                            'UNRECOGNISED-IDIOM %s: `_defaults` merges a '
+                            'table that is not a constant: %s'
+                            % (c.where, short(vv)))
+                    items += [(x, y, vv) for x, y in inner.items()]
+                    continue
+                key = prog.fold(c.module, kk, c)
+                if key is UNKNOWN:
+                    raise AnalysisError(
+                        'UNRECOGNISED-IDIOM %s: key of `_defaults` is not a '
+                        'constant: %s' % (c.where, short(kk)))
+                items.append((key, vv, vv))
+        elif isinstance(dv, ast.Call) and dotted(dv.func) == 'dict' and \
+                not dv.args and all(kw.arg for kw in dv.keywords):
+            items = [(kw.arg, kw.value, kw.value) for kw in dv.keywords]
+        else:
+            whole = prog.fold(c.module, dv, c)
+            if not isinstance(whole, dict):
+                raise AnalysisError(
+                    'UNRECOGNISED-IDIOM %s: `_defaults` is not a dict '
+                    'literal: %s' % (c.where, short(dv)))
+            items = [(x, y, dv) for x, y in whole.items()]
+        for key, v, node in items:
+            if key not in TAG_KEYS:
+                continue
+            if isinstance(v, ast.AST):
+                v = prog.fold(c.module, v, c)
+                if v is UNKNOWN:
+                    raise AnalysisError(
+                        'UNRECOGNISED-IDIOM %s: default of %r is not a '
+                        'constant: %s' % (c.where, key, short(node)))
+            out[key] = (v, c, node)
+    # defaults edited after the class statement
+    m = k.module
+    for n in walk(m.tree, nested=True):
+        if isinstance(n, (ast.Assign, ast.AugAssign)):
+            for t in (n.targets if isinstance(n, ast.Assign) else [n.target]):
+                if isinstance(t, ast.Subscript) and \
+                        isinstance(t.value, ast.Attribute) and \
+                        t.value.attr == '_defaults':
+                    key = prog.fold(m, t.slice, k)
+                    if key is UNKNOWN or key in TAG_KEYS:
+                        raise AnalysisError(
+                            'UNRECOGNISED-IDIOM %s: a `_defaults` table is '
+                            'edited outside its class statement: %s'
+                            % (m.rel, short(n)))
+    return out
+
+
+def presence_tested(fwd):
+    """keys of the message whose PRESENCE decides something in the callback:
+    `k in msg`, `k not in msg`, `msg.setdefault(k, ..)`"""
+    params = fwd.params
+    msg = params[1] if len(params) > 1 else None
+    out = set()
+    for n in walk(fwd.node):
+        if isinstance(n, ast.Compare) and len(n.ops) == 1 and \
+                isinstance(n.ops[0], (ast.In, ast.NotIn)) and \
+                isinstance(n.comparators[0], ast.Name) and \
+                n.comparators[0].id == msg and \
+                isinstance(n.left, ast.Constant):
+            out.add(n.left.value)
+        elif isinstance(n, ast.Call) and isinstance(n.func, ast.Attribute) \
+                and n.func.attr == 'setdefault' and \
+                isinstance(n.func.value, ast.Name) and \
+                n.func.value.id == msg and n.args and \
+                isinstance(n.args[0], ast.Constant):
+            out.add(n.args[0].value)
+    return out
+
+
+def _effects_text(outs):
+    def one(eff):
+        if not eff:
+            return 'dropped'
+        out = []
+        for e in eff:
+            if e[0] == 'put':
+                out.append('put on the target with origin %s' % (
+                    'this side' if e[2] else 'missing' if not e[1]
+                    else 'not this side'))
+            else:
+                out.append('the callback raises')
+        return ', '.join(out)
+    return ' / '.join(sorted({one(eff) for sw, eff in outs}))
+
+
+def r16_6(prog, rep, rid='R16.6'):
+    rep.rule(rid, 'a freshly constructed typed message (all defaulted items '
+             'of its class present) is handled by the first forwarder it '
+             'meets (local -> proxy) exactly like the dict message with the '
+             'same forward flag and no origin tag (whose handling is R16.1)',
+             minimum=4)
+    cw, fwd, sub, pub, pubvar = forwarder(prog)
+    rep.saw(fwd)
+    pres = presence_tested(fwd)
+    P = False       # nobody but a forwarder publishes on a PROXY_ channel
+    for k in message_classes(prog):
+        rep.saw(k)
+        d = class_defaults(prog, k)
+        m = {key: d[key][0] for key in TAG_KEYS if key in d}
+        plain = {'fwd': True} if m.get('fwd') else {}
+        shown = ', '.join('%r: %r' % kv for kv in sorted(m.items())) or \
+            'neither origin nor fwd'
+        what = 'a new %s {%s} is forwarded like the dict message %r' % (
+            k.name, shown, plain)
+        if m == plain:
+            rep.ok(rid, k, what, 'src/radical/pilot/%s:%d'
+                   % (k.module.rel, k.node.lineno))
+            continue
+        typed = outcomes_by_value(prog, fwd, pubvar, P, m)
+        ref = outcomes_by_value(prog, fwd, pubvar, P, plain)
+        dkeys = sorted(pres & set(m))
+        if typed is None or ref is None:
+            # the value interpretation does not decide the callback; what is
+            # certain: a presence test never sees a defaulted key as missing,
+            # a value test of the flag does not tell False from a missing key
+            if not dkeys and 'origin' in m:
+                raise AnalysisError(
+                    'UNRECOGNISED-IDIOM %s: how the callback treats the '
+                    'default origin=%r of %s is not decided'
+                    % (fwd.where, m['origin'], k.name))
+            problem = 'the callback tests the presence of %s, which is ' \
+                'always given' % ', '.join(repr(x) for x in dkeys) \
+                if dkeys else None
+        else:
+            problem = None if typed == ref else \
+                'the typed message is %s, the dict message is %s' % (
+                    _effects_text(typed), _effects_text(ref))
+        key = 'origin' if 'origin' in d else 'fwd'
+        owner, node = d[key][1], d[key][2]
+        why = ''
+        if 'origin' in m:
+            why = " ('origin' is an item of `_defaults` of %s: the key is " \
+                  "present in every such message%s)" % (
+                      owner.name, ', but the callback recognises an untagged '
+                      'message by the absence of the key and never tags it '
+                      'with the side identity' if 'origin' in pres else '')
+        cons = 'typed messages with the forward flag (RPC requests and ' \
+               'replies) never reach the other sides' if m.get('fwd') else \
+               'typed messages without the forward flag leave the side ' \
+               'where they were published'
+        rep.check(problem is None, rid, k, what, construct=k.name,
+                  message='%s: a %s is constructed as {%s}%s; at the local -> '
+                  'proxy forwarder (%s) %s: %s' % (
+                      k.where, k.name, shown, why, fwd.qual, problem, cons),
+                  loc='src/radical/pilot/%s:%d' % (
+                      owner.module.rel, getattr(node, 'lineno',
+                                                k.node.lineno)),
+                  history='a component publishes a new %s (%s) on its '
+                  'control pubsub: %s' % (
+                      k.name, shown, 'the local -> proxy forwarder of that '
+                      'side does not put it on the proxy: delivered 0 times '
+                      'on every other side (expected 1); rpc() across the '
+                      'proxy never returns' if m.get('fwd') else
+                      'it is put on the proxy and delivered on every other '
+                      'side (expected: stays local)'))
+
 
 
 # ------------------------------------------------------------------------------
@@ -1636,7 +1919,14 @@ def run(prog, rep, tier):
         'directed (pubsub, PROXY_ twin) pair is wired exactly once, sessions '
         'of every other role wire nothing, nobody outside Session wires '
         'these pairs; default forward flags of advance() and the forward '
-        'flag of cancel requests.')
+        'flag of cancel requests; the callback is analysed with the calls of '
+        'sibling closures of the wiring method (a predicate per direction, '
+        'selected under tests of never re-bound parameters) inlined; a new '
+        'instance of every typed message class of messages.py (defaults '
+        'merged along the bases) is handled by the local -> proxy forwarder '
+        'like the dict message with the same forward flag and no origin tag '
+        '(R16.6); the class declaring the fwd item defaults it to false, RPC '
+        'requests / replies are constructed with fwd true.')
     rep.undecided = ('delivery by the zmq bridges and the proxy (trusted); '
         'that the pilot ids handed to the agents differ; which other messages should '
         'carry the forward flag (policy, listed as information in the '
@@ -1655,6 +1945,12 @@ def run(prog, rep, tier):
         'per side there is one primary (client) resp. one agent_0 (pilot) '
         'session and any number of agent_n / client / default sessions, all '
         'using the bridges and the identity of their side',
+        'ru.TypedDict (radical.utils, outside the analysed tree) merges the '
+        '`_defaults` tables of the base classes into every subclass and '
+        'copies them into each new instance: a defaulted key is present in '
+        'every message of the class',
+        'nothing but a forwarder publishes on a PROXY_ channel: the first '
+        'forwarder a new message meets is a local -> proxy one',
         'clearing the forward flag before the put is defence in depth (the '
         'origin test alone prevents re-forwarding) and reported as '
         'information only',
@@ -1662,6 +1958,7 @@ def run(prog, rep, tier):
     rep.attempt(r16_1, prog, rep)
     rep.attempt(r16_2, prog, rep)
     rep.attempt(r16_3, prog, rep, tier=tier)
+    rep.attempt(r16_6, prog, rep)
     sides = rep.attempt(_side_runs, prog, rep)
     if sides is not None:
         rep.attempt(r16_4, prog, rep, sides)
@@ -1859,6 +2156,94 @@ SILENT += [
     dict(name='wiring: role dispatch of __init__ with nested if', edits=[
         (_S, "        if   self._role == self._PRIMARY: self._init_primary()\n        elif self._role == self._AGENT_0: self._init_agent_0()\n        elif self._role == self._AGENT_N: self._init_agent_n()\n        elif self._role == self._CLIENT : self._init_client()\n        else                            : self._init_default()\n",
              "        role = self._role\n        if role in (self._PRIMARY, self._AGENT_0):\n            if role == self._AGENT_0:\n                self._init_agent_0()\n            else:\n                self._init_primary()\n        elif role == self._AGENT_N:\n            self._init_agent_n()\n        elif role == self._CLIENT:\n            self._init_client()\n        else:\n            self._init_default()\n")]),
+]
+
+
+# ------------------------------------------------------------------------------
+# R16.6 / closures per wire / table driven wiring
+#
+_M = 'messages.py'
+_BASE_DEF = "    _schema   = {'fwd': bool}\n    _defaults = {'fwd': False}\n"
+_BASE_E = "    _schema   = {'fwd'   : bool,\n                 'origin': str}\n    _defaults = {'fwd'   : False,\n                 'origin': None}\n"
+_REQ_DEF = "    _defaults = {'fwd'      : True,\n                 'uid'      : None,\n                 'addr'     : None,"
+_RES_DEF = "                 'fwd'      : True,\n                 'uid'      : None,\n                 'val'      : None,"
+_FWD_TEST = "                if not msg.get('fwd'):\n                    if LOG_ENABLED:\n                        self._log.debug_9('XXX =>! fwd"
+_FWD_OLD = "        def pubsub_fwd(topic, msg):\n\n            if 'origin' not in msg:\n                msg['origin'] = self._module\n\n            if from_proxy:\n\n                # all messages *from* the proxy are forwarded - but not the ones\n                # which originated in *this* module in the first place.\n\n                if msg['origin'] == self._module:\n                    if LOG_ENABLED:\n                        self._log.debug_9('XXX >=! fwd %s to topic:%s: %s',\n                                          src, tgt, msg)\n                    return\n\n                if LOG_ENABLED:\n                    self._log.debug_9('XXX >=> fwd %s to topic:%s: %s',\n                                      src, tgt, msg)\n                publisher.put(tgt, msg)\n\n            else:\n\n                # only forward messages which have the respective flag set\n                if not msg.get('fwd'):\n                    if LOG_ENABLED:\n                        self._log.debug_9('XXX =>! fwd %s to %s: %s [%s - %s]',\n                                          src, tgt, msg, msg['origin'],\n                                          self._module)\n                    return\n\n                # only forward all messages which originated in *this* module.\n                if not msg['origin'] == self._module:\n                    if LOG_ENABLED:\n                        self._log.debug_9('XXX =>| fwd %s to topic:%s: %s',\n                                          src, tgt, msg)\n                    return\n\n                self._log.debug_9('XXX =>> fwd %s to topic:%s: %s', src, tgt, msg)\n\n                # avoid message loops (forward only once)\n                msg['fwd'] = False\n\n                if LOG_ENABLED:\n                    self._log.debug_3('XXX =>> fwd %s to topic:%s: %s',\n                                      src, tgt, msg)\n                publisher.put(tgt, msg)\n\n\n"
+_FWD_R5 = "        def accept_from_proxy(msg, module, log):\n\n            # all messages *from* the proxy are forwarded - but not the ones\n            # which originated in *this* module in the first place.\n            if msg['origin'] == module:\n                if LOG_ENABLED:\n                    log.debug_9('XXX >=! fwd %s to topic:%s: %s', src, tgt, msg)\n                return False\n\n            if LOG_ENABLED:\n                log.debug_9('XXX >=> fwd %s to topic:%s: %s', src, tgt, msg)\n\n            return True\n\n\n        def accept_to_proxy(msg, module, log):\n\n            # only forward messages which have the respective flag set\n            if not msg.get('fwd'):\n                if LOG_ENABLED:\n                    log.debug_9('XXX =>! fwd %s to %s: %s [%s - %s]',\n                                src, tgt, msg, msg['origin'], module)\n                return False\n\n            # only forward all messages which originated in *this* module.\n            if msg['origin'] != module:\n                if LOG_ENABLED:\n                    log.debug_9('XXX =>| fwd %s to topic:%s: %s', src, tgt, msg)\n                return False\n\n            log.debug_9('XXX =>> fwd %s to topic:%s: %s', src, tgt, msg)\n\n            # avoid message loops (forward only once)\n            msg['fwd'] = False\n\n            if LOG_ENABLED:\n                log.debug_3('XXX =>> fwd %s to topic:%s: %s', src, tgt, msg)\n\n            return True\n\n\n        # the direction of the wire decides which messages may pass\n        if from_proxy: accept = accept_from_proxy\n        else         : accept = accept_to_proxy\n\n        def pubsub_fwd(topic, msg):\n\n            module = self._module\n\n            # messages which pass a forwarder for the first time get marked\n            msg.setdefault('origin', module)\n\n            if accept(msg, module, self._log):\n                publisher.put(tgt, msg)\n\n\n"
+_WIRE_OLD = '        self.crosswire_pubsub(src=rpc.CONTROL_PUBSUB,\n                              tgt=rpc.PROXY_CONTROL_PUBSUB,\n                              from_proxy=False)\n        self.crosswire_pubsub(src=rpc.PROXY_CONTROL_PUBSUB,\n                              tgt=rpc.CONTROL_PUBSUB,\n                              from_proxy=True)\n\n        self.crosswire_pubsub(src=rpc.STATE_PUBSUB,\n                              tgt=rpc.PROXY_STATE_PUBSUB,\n                              from_proxy=False)\n        self.crosswire_pubsub(src=rpc.PROXY_STATE_PUBSUB,\n                              tgt=rpc.STATE_PUBSUB,\n                              from_proxy=True)\n\n\n'
+_WIRE_R5 = '        wires = [(rpc.CONTROL_PUBSUB, rpc.PROXY_CONTROL_PUBSUB),\n                 (rpc.STATE_PUBSUB,   rpc.PROXY_STATE_PUBSUB  )]\n\n        # each local channel gets wired to its proxy channel, and back\n        for local, proxy in wires:\n            self.crosswire_pubsub(src=local, tgt=proxy, from_proxy=False)\n            self.crosswire_pubsub(src=proxy, tgt=local, from_proxy=True)\n\n\n'
+_ACCEPT_SEL = "        if from_proxy: accept = accept_from_proxy\n        else         : accept = accept_to_proxy\n"
+_ACCEPT_USE = "            if accept(msg, module, self._log):\n                publisher.put(tgt, msg)\n"
+
+MUTATIONS += [
+    dict(name='R16.6 seed C16-e: origin declared in schema and defaults of the typed messages', rules=('R16.6',), edits=[
+        (_M, _BASE_DEF, _BASE_E)]),
+    dict(name='R16.6 origin defaulted by the RPC request class only', rules=('R16.6',), edits=[
+        (_M, _REQ_DEF, _REQ_DEF.replace("'uid'      : None,", "'origin'   : None,\n                 'uid'      : None,"))]),
+    dict(name='R16.6 origin defaulted to the identity of the client', rules=('R16.6',), edits=[
+        (_M, _BASE_DEF, "    _schema   = {'fwd': bool, 'origin': str}\n    _defaults = dict(fwd=False, origin='client')\n")]),
+    dict(name='R16.6 origin defaulted, forwarder tags with setdefault', rules=('R16.6',), edits=[
+        (_M, _BASE_DEF, _BASE_E),
+        (_S, _TAG, "            msg.setdefault('origin', self._module)\n")]),
+    dict(name='R16.6 origin defaulted, forwarder split into closures per wire (seed C16-r5 shape)', rules=('R16.6',), edits=[
+        (_M, _BASE_DEF, _BASE_E),
+        (_S, _FWD_OLD, _FWD_R5)]),
+    dict(name='R16.6 origin defaulted to the empty string, forwarder tests for None', rules=('R16.6',), edits=[
+        (_M, _BASE_DEF, _BASE_E.replace("'origin': None", "'origin': ''")),
+        (_S, _TAG, "            if msg.get('origin') is None:\n                msg['origin'] = self._module\n")]),
+    dict(name='R16.6 forward flag tested for presence: typed messages with fwd=False leave the side', rules=('R16.6',), edits=[
+        (_S, _FWD_TEST, _FWD_TEST.replace("if not msg.get('fwd'):", "if 'fwd' not in msg:"))]),
+    dict(name='R16.3 typed messages carry the forward flag by default', rules=('R16.3',), edits=[
+        (_M, _BASE_DEF, "    _schema   = {'fwd': bool}\n    _defaults = {'fwd': True}\n")]),
+    dict(name='R16.3 RPC replies stay on the side of the callee', rules=('R16.3',), edits=[
+        (_M, _RES_DEF, _RES_DEF.replace("'fwd'      : True", "'fwd'      : False"))]),
+    dict(name='R16.3 RPC request constructed with fwd=False', rules=('R16.3',), edits=[
+        (_C, "        rpc_req = RPCRequestMessage(uid=rpc_id, cmd=cmd, addr=rpc_addr,\n                                    args=args, kwargs=kwargs)\n\n        self._rpc_reqs[rpc_id] = {\n                'req': rpc_req,\n                'res': None,\n                'evt': mt.Event(),",
+             "        rpc_req = RPCRequestMessage(uid=rpc_id, cmd=cmd, addr=rpc_addr,\n                                    args=args, kwargs=kwargs, fwd=False)\n\n        self._rpc_reqs[rpc_id] = {\n                'req': rpc_req,\n                'res': None,\n                'evt': mt.Event(),")]),
+    dict(name='R16.1 closures per wire: predicates selected for the wrong direction', rules=('R16.1',), edits=[
+        (_S, _FWD_OLD, _FWD_R5.replace(_ACCEPT_SEL, "        if from_proxy: accept = accept_to_proxy\n        else         : accept = accept_from_proxy\n"))]),
+    dict(name='R16.1 closures per wire: one predicate for both directions', rules=('R16.1',), edits=[
+        (_S, _FWD_OLD, _FWD_R5.replace(_ACCEPT_SEL, "        accept = accept_to_proxy\n"))]),
+    dict(name='R16.1 closures per wire: to-proxy predicate without the origin test', rules=('R16.1',), edits=[
+        (_S, _FWD_OLD, _FWD_R5.replace("            if msg['origin'] != module:\n                if LOG_ENABLED:\n                    log.debug_9('XXX =>| fwd %s to topic:%s: %s', src, tgt, msg)\n                return False\n", ""))]),
+    dict(name='R16.1 closures per wire: verdict of the predicate inverted', rules=('R16.1',), edits=[
+        (_S, _FWD_OLD, _FWD_R5.replace("            if accept(msg, module, self._log):", "            if not accept(msg, module, self._log):"))]),
+    dict(name='R16.2 table driven wiring: both directions wired as from_proxy', rules=('R16.2',), edits=[
+        (_S, _WIRE_OLD, _WIRE_R5.replace("tgt=proxy, from_proxy=False", "tgt=proxy, from_proxy=True"))]),
+    dict(name='R16.2 table driven wiring: state channel paired with the proxy control channel', rules=('R16.2',), edits=[
+        (_S, _WIRE_OLD, _WIRE_R5.replace("(rpc.STATE_PUBSUB,   rpc.PROXY_STATE_PUBSUB  )", "(rpc.STATE_PUBSUB,   rpc.PROXY_CONTROL_PUBSUB)"))]),
+]
+
+SILENT += [
+    dict(name='origin documented in the schema only (no default: the key stays absent)', edits=[
+        (_M, _BASE_DEF, "    _schema   = {'fwd'   : bool,\n                 'origin': str}\n    _defaults = {'fwd'   : False}\n")]),
+    dict(name='origin defaulted to None and the forwarder tags by value (is None)', edits=[
+        (_M, _BASE_DEF, _BASE_E),
+        (_S, _TAG, "            if msg.get('origin') is None:\n                msg['origin'] = self._module\n")]),
+    dict(name='origin defaulted to None and the forwarder tags by truthiness', edits=[
+        (_M, _BASE_DEF, _BASE_E),
+        (_S, _TAG, "            if not msg.get('origin'):\n                msg['origin'] = self._module\n")]),
+    dict(name='defaults of the base message spelled with dict()', edits=[
+        (_M, _BASE_DEF, "    _schema   = dict(fwd=bool)\n    _defaults = dict(fwd=False)\n")]),
+    dict(name='RPC request names the forward flag at the construction site', edits=[
+        (_M, _REQ_DEF, _REQ_DEF.replace("'fwd'      : True", "'fwd'      : False")),
+        (_C, "        rpc_req = RPCRequestMessage(uid=rpc_id, cmd=cmd, addr=rpc_addr,\n                                    args=args, kwargs=kwargs)\n\n        self._rpc_reqs[rpc_id] = {\n                'req': rpc_req,\n                'res': None,\n                'evt': mt.Event(),",
+             "        rpc_req = RPCRequestMessage(uid=rpc_id, cmd=cmd, addr=rpc_addr,\n                                    args=args, kwargs=kwargs, fwd=True)\n\n        self._rpc_reqs[rpc_id] = {\n                'req': rpc_req,\n                'res': None,\n                'evt': mt.Event(),"),
+        ('pilot.py', "        rpc_req = RPCRequestMessage(uid=rpc_id, cmd=cmd, addr=rpc_addr,\n                                    args=args, kwargs=kwargs)", "        rpc_req = RPCRequestMessage(uid=rpc_id, cmd=cmd, addr=rpc_addr,\n                                    fwd=True, args=args, kwargs=kwargs)")]),
+    dict(name='forwarder split into one predicate per wire direction (seed C16-r5)', edits=[
+        (_S, _FWD_OLD, _FWD_R5)]),
+    dict(name='predicate per wire selected by a conditional expression', edits=[
+        (_S, _FWD_OLD, _FWD_R5.replace(_ACCEPT_SEL, "        accept = accept_from_proxy if from_proxy else accept_to_proxy\n"))]),
+    dict(name='predicate per wire selected in early-exit form (negated test)', edits=[
+        (_S, _FWD_OLD, _FWD_R5.replace(_ACCEPT_SEL, "        if not from_proxy:\n            accept = accept_to_proxy\n        else:\n            accept = accept_from_proxy\n"))]),
+    dict(name='predicates called directly under the direction test, verdict in a local', edits=[
+        (_S, _FWD_OLD, _FWD_R5.replace(_ACCEPT_SEL, "").replace(_ACCEPT_USE, "            if from_proxy:\n                ok = accept_from_proxy(msg, module, self._log)\n            else:\n                ok = accept_to_proxy(msg, module, self._log)\n            if ok:\n                publisher.put(tgt, msg)\n"))]),
+    dict(name='predicate verdict negated with early return', edits=[
+        (_S, _FWD_OLD, _FWD_R5.replace(_ACCEPT_USE, "            if not accept(msg, module, self._log):\n                return\n            publisher.put(tgt, msg)\n"))]),
+    dict(name='table driven wiring of the four forwarders (seed C16-r5)', edits=[
+        (_S, _WIRE_OLD, _WIRE_R5)]),
+    dict(name='table driven wiring with explicit direction flags in the table', edits=[
+        (_S, _WIRE_OLD, "        for src, tgt, back in [(rpc.CONTROL_PUBSUB, rpc.PROXY_CONTROL_PUBSUB, False),\n                               (rpc.PROXY_CONTROL_PUBSUB, rpc.CONTROL_PUBSUB, True),\n                               (rpc.STATE_PUBSUB, rpc.PROXY_STATE_PUBSUB, False),\n                               (rpc.PROXY_STATE_PUBSUB, rpc.STATE_PUBSUB, True)]:\n            self.crosswire_pubsub(src, tgt, from_proxy=back)\n\n\n")]),
 ]
 
 
